@@ -277,6 +277,12 @@ def run(ctx):
                     ctx.counterexample('glob(%r, %s) on a tree with abc/, ABC/, Abc/ returns %r; matching entry by entry gives %r' % (pat_, corr.flag_names(fl_), got, want),
                                        {'pattern': pat_, 'flags': corr.flag_names(fl_), 'got': got, 'want': want})
     ctx.counted('mode table + metamorphic closure', evals, len(nontriv), [{'pattern': 'a*C', 'name': 'aXc'}, {'pattern': '//host/share/*', 'name': '\\\\host\\share\\x'}])
+    from props import fringe
+    fringe.nonascii_case(ctx)
+    from props import globcommon as _gc9
+    nfr_ = _gc9.fringe_names(ctx)
+    ctx.counted('escaped entries and literal names on a tree of non-ASCII and case-twin names', nfr_, nfr_ // 2, [{'entry': '\u0130stanbul.txt', 'flags': 'IGNORECASE'}])
+    fringe.newline_match(ctx)
     return ctx.finish(RULE)
 
 
